@@ -16,7 +16,9 @@ def run(tier, seed):
         ck.violation("harness-build", {"kind": "build"}, {"log": log[-3000:]}, no_input=True)
         return ck.finish()
     rc, out = sh([binp, "-seed", str(seed), "-n", str(n)], timeout=1200)
-    cases = jlines(out)
+    lines = jlines(out)
+    starts = [x for x in lines if x.get("kind") == "startfail"]
+    cases = [x for x in lines if x.get("kind") != "startfail"]
     if rc != 0 or not cases:
         ck.violation("process-crash", {"kind": "process-crash"}, {"rc": rc, "tail": out[-3000:]})
         return ck.finish()
@@ -40,6 +42,24 @@ def run(tier, seed):
     def viol(kind, sig, detail, **kw):
         if kind in shown: return
         shown.add(kind); ck.violation(kind, sig, detail, **kw)
+    # failing start functions: documented error, nothing of the half-made instance stays behind, the rest keeps working
+    dist["start_function_failures"] = len(starts)
+    want_err = {"trap": "trap:unreachable", "exit-self": "exit:7", "exit-lib": "exit:7", "panic": "panic:boom"}
+    if len(starts) != 24:
+        viol("startfail-missing", {"kind": "startfail-missing"}, {"got": len(starts)}, no_input=True)
+    for sf in starts:
+        why = []
+        if sf["err"] != want_err[sf["how"]]: why.append("InstantiateModule returned error class %r, expected %r" % (sf["err"], want_err[sf["how"]]))
+        if sf["returned_module_open"]: why.append("the module handed back together with the error is still open")
+        if sf["registered"]: why.append("Runtime.Module(\"app\") still finds the failed instance (IsClosed=%s)" % sf["reg_closed"])
+        if sf["retake"] != "ok" or sf["retake_res"] != 42: why.append("the name cannot be taken by a working module afterwards: %s (f() = %s)" % (sf["retake"], sf["retake_res"]))
+        if sf["other_res"] != 42: why.append("an untouched instance no longer works: f() = %s" % sf["other_res"])
+        if sf["lib_open"] != (sf["how"] != "exit-lib"): why.append("lib open=%s" % sf["lib_open"])
+        if sf["second_err"] not in ("lib-closed", want_err[sf["how"]]): why.append("the same failing instantiation a second time: %r" % sf["second_err"])
+        if why:
+            viol("start-failure-" + sf["how"] + "-" + sf["mech"] + "-" + sf["engine"], {"kind": "start-failure", "how": sf["how"], "mech": sf["mech"], "engine": sf["engine"]},
+                 {"oracle": why, "observed": sf, "scenario": "runtime with host module xenv (quit = close the CALLING module + exit error; boom = panic), instance lib (its quit calls xenv.quit), "
+                  "instance other; then InstantiateWithConfig(app, name 'app') whose start function (%s) does: %s" % (sf["mech"], sf["how"])})
     for eng in ("interp", "compiler"):
         items, idx, cuts = [], [], []
         for i, c in enumerate(cases):
